@@ -33,6 +33,7 @@ RULE = (
     "of one context object, nesting of distinct objects to depth 5; the same histories inside threads "
     "and asyncio tasks (isolation); distinct = history signature; non-trivial = >= 2 contexts and >= 1 "
     "operator step"
+    " Also: compile-derived-fresh (a*conj(a), a*(a*b), conj(a*b), cat(a, conj(a)) compiled in a fresh context), custom operator rules owned by a context for conjugate / integrate / multiply / differentiate through both entry points;"
 )
 EXHAUSTIVE_SUBSPACES = ["state compared after every single step of every history"]
 ASSUMPTIONS = ["re-entering a context object that is already active is excluded (the property says so)"]
